@@ -214,6 +214,9 @@ def driver_build(name):
         if not os.path.exists(ml):
             raise BuildError("driver", f"coq/Extract/m_{name}.ml missing (extraction did not run)")
         deps = [os.path.join(src, f) for f in (f"m_{name}.ml", f"m_{name}.mli", f"d_{name}.ml", "sexp.ml", "prelude.ml")]
+        for d in deps:
+            if not os.path.exists(d):
+                raise BuildError("driver", f"{os.path.relpath(d, VERIF)} missing")
         out = driver_path(name)
         if os.path.exists(out) and all(os.path.getmtime(out) >= os.path.getmtime(d) for d in deps):
             return
